@@ -16,6 +16,7 @@ from concurrent.futures import ProcessPoolExecutor
 from vlib import tlc, impl
 
 GOOD = '''START = 0x20000000
+reset:
 include_marker:
     li x9, 0x12345678
     addi x8, x8, 1
@@ -31,6 +32,8 @@ table:
     align 2
 far:
     ret
+image_end:
+data_end:
 '''
 FAULT = {'read': 'include nothere.asm', 'parse': 'frobnicate x1, x2', 'constants': 'KX = NOCONST + 1', 'compress': 'add x8, x8, q9',
          'pseudo': 'li x5, NOCONST', 'immediates': 'beq x1, x2, NOWHERE', 'encode': 'addi x5, x5, 5000', 'data': 'dh 70000'}
